@@ -10,6 +10,7 @@ import json, os, shutil, subprocess, sys, time, glob
 
 VERIF = os.path.dirname(os.path.dirname(os.path.abspath(__file__)))
 BASE = "/tmp/seedbase"
+REPO = os.environ.get("SEED_REPO", "/repo")      # the git repository worktrees are taken from (a private clone when /repo is read-only)
 
 
 def sh(cmd, cwd=None, timeout=7200, env=None):
@@ -30,26 +31,26 @@ def demo_build(dirpath, src, exe):
 
 
 def scratch(sid):
-    d = "/tmp/seedrun-%s" % sid
-    sh("git -C /repo worktree remove --force %s/repo" % d)
+    d = "%s/seedrun-%s" % (os.environ.get("SEED_SCRATCH", "/tmp"), sid)
+    sh("git -C %s worktree remove --force %s/repo" % (REPO, d))
     shutil.rmtree(d, ignore_errors=True)
     os.makedirs(d)
     return d
 
 
 def cleanup(d):
-    sh("git -C /repo worktree remove --force %s/repo" % d)
+    sh("git -C %s worktree remove --force %s/repo" % (REPO, d))
     shutil.rmtree(d, ignore_errors=True)
-    sh("git -C /repo worktree prune")
+    sh("git -C %s " % REPO + "worktree prune")
 
 
 def ensure_base():
-    head = sh("git -C /repo rev-parse HEAD")[1].strip()
+    head = sh("git -C %s " % REPO + "rev-parse HEAD")[1].strip()
     cur = sh("git -C %s rev-parse HEAD" % BASE)[1].strip() if os.path.isdir(BASE) else ""
     if cur != head or not os.path.exists(BASE + "/_build/libsndfile.a"):
-        sh("git -C /repo worktree remove --force %s" % BASE)
+        sh("git -C %s " % REPO + "worktree remove --force %s" % BASE)
         shutil.rmtree(BASE, ignore_errors=True)
-        sh("git -C /repo worktree add --detach %s HEAD" % BASE)
+        sh("git -C %s " % REPO + "worktree add --detach %s HEAD" % BASE)
         ok, out = build(BASE)
         assert ok, out
 
@@ -62,7 +63,7 @@ def confirm(sd, n, sid, prop):
     ensure_base()
     d = scratch(sid)
     wt = d + "/repo"
-    sh("git -C /repo worktree add --detach %s HEAD" % wt)
+    sh("git -C %s " % REPO + "worktree add --detach %s HEAD" % wt)
     rc, out = sh("git apply %s" % patch, cwd=wt)
     res["applies"] = rc == 0
     if rc != 0:
@@ -107,7 +108,7 @@ def run(sid, props, tier="quick"):
         props = [meta["breaks"]]
     d = scratch(sid)
     wt = d + "/repo"
-    sh("git -C /repo worktree add --detach %s HEAD" % wt)
+    sh("git -C %s " % REPO + "worktree add --detach %s HEAD" % wt)
     rc, out = sh("git apply %s" % os.path.join(sdir, "patch.diff"), cwd=wt)
     if rc != 0:
         print("patch does not apply any more:", out)
